@@ -323,6 +323,26 @@ func buildInlinedOverlay(repo string, known map[string]bool, maxRounds int) (map
 			break
 		}
 	}
+	// A deferred clean-up guarded by a constant flag is made explicit at every return behind it (undefer.go).
+	{
+		before := map[string][]byte{}
+		for k, v := range overlay {
+			before[k] = v
+		}
+		if n := undeferOverlay(abs, overlay); n > 0 {
+			if err := typeCheckOverlay(abs, overlay); err != nil {
+				for k := range overlay {
+					if v, was := before[k]; was {
+						overlay[k] = v
+					} else {
+						delete(overlay, k)
+					}
+				}
+			} else {
+				steps = append(steps, inlineStep{Callee: fmt.Sprintf("%d flag-guarded deferred clean-up(s)", n), Caller: "every return behind the defer statement", Kind: "undefer"})
+			}
+		}
+	}
 	// Flatten the function literals the inliner had to introduce in statement context - and the ones the change
 	// itself wrote (a critical section moved into a literal that is called on the spot): files with such a call
 	// join the view.
